@@ -20,10 +20,11 @@ def collect(ctx, res, want="C16"):
     out = []
     for b in bad:
         e = frames[b["line"] - 1]
-        if "lines" not in b["why"] and want == "C16":
+        if "lines" not in b["why"] and "centred" not in b["why"] and want == "C16":
             continue
         rows = 1 + sum(1 for t in e["toks"] if t["t"] == "nl")
         sig = {"monitor": "T_Term", "why": ",".join(b["why"]), "kind": "frame", "lines_minus_h": rows - e["h"]}
         path = vlib.save_replay(ctx.pid, "frame-s%d-%d" % (e["sid"], e["frame"]), {k: e[k] for k in ("w", "h", "sid", "frame")})
-        out.append((sig, path, "frame %d of ui session %d has %d lines on a terminal of height %d (%s)" % (e["frame"], e["sid"], rows, e["h"], b["why"])))
+        out.append((sig, path, "frame %d of ui session %d has %d lines on a terminal of height %d, highlighted item at row %s (%s rows) (%s)" % (
+            e["frame"], e["sid"], rows, e["h"], e.get("cursor_top"), e.get("cursor_rows"), b["why"])))
     return out
